@@ -150,6 +150,7 @@ def run(ctx):
             continue
         seen.add(d["signature"])
         ctx.report(d["signature"], d["what"], dict(input=d["input"], how="tools/harness/c14.py direct statement; replay with ./check C14 --replay <this file>"))
+    ctx.cov["signatures_reported"] = sorted(set(v[0] for v in ctx.violations) | set(s for s, _ in ctx.known_printed))
     if not proved and not direct:
         kind, msg = ctx.broken
         ctx.report("C14:" + kind, "%s no longer checks: %s" % (kind, msg), dict(obligation=kind, detail=msg), found_input=False)
@@ -161,9 +162,9 @@ def replay(path):
     if not inp:
         print("replay file names an obligation, not an input: %s" % doc.get("obligation"))
         return 1
-    if "Z" not in inp:  # a direct statement: input written by the harness
-        import periodictable  # noqa: only to resolve the isotope name -> (Z, A)
-    if "formula" in inp:
+    if str(doc.get("signature", "")).startswith("C14:table-"):
+        data = vlib.run_harness("c14.py", ["--table"])
+    elif "formula" in inp:
         data = vlib.run_harness("c14.py", ["--sample", json.dumps(inp)])
     else:
         data = vlib.run_harness("c14.py", ["--case", json.dumps(inp)])
